@@ -74,7 +74,11 @@ func budgetFor(n int, nodes, depth int) int64 {
 
 // shapeOf parses bytes the way a browser would and returns node count and maximum depth.
 func shapeOf(b []byte) (nodes, depth int) {
-	doc, err := html.Parse(bytes.NewReader(b))
+	// as the library will see it: decoded by charset detection (a UTF-16 page is deep only once decoded)
+	doc, err := dom.Parse(bytes.NewReader(b))
+	if err != nil {
+		doc, err = html.Parse(bytes.NewReader(b))
+	}
 	if err != nil {
 		return 0, 0
 	}
